@@ -1194,6 +1194,67 @@ def r_ahead(ctx):
     run.floor('R-AHEAD', 'look-ahead accesses in the fast-mode loops', n, 2)
 
 
+def _vtuse_by_tail_paths(ctx, enc):
+    """the result of encode is assembled on the way to the return (a list that grows, one return): evaluate every path
+    through the loop-free tail under vt_length in {0, 1} x need_path in {False, True}"""
+    from ..ctx import tail_paths, walk_path
+    run = ctx.run
+    paths = tail_paths(enc)
+    n = 0
+    for vt in (0, 1):
+        for np_ in (False, True):
+            def atom(x, vt=vt, np_=np_):
+                if x == ('v', 'vt_length', 'P'):
+                    return vt
+                if x == ('v', 'need_path', 'P'):
+                    return np_
+                return UNKNOWN
+            feasible = []
+            for p in paths:
+                events, env = walk_path(enc, p)
+                ok, unknown = True, False
+                for e in events:
+                    if e.kind == 'test' and e.extra is not None:
+                        v = feval(e.term, atom)
+                        if v is UNKNOWN:
+                            unknown = True
+                        elif bool(v) != e.extra:
+                            ok = False
+                            break
+                if ok:
+                    feasible.append((p, events, unknown))
+            role = 'result[vt_length%s0,need_path=%s]' % ('>' if vt else '=', np_)
+            if len(feasible) != 1 or feasible[0][2]:
+                run.undecided('R-VTUSE', enc, role, enc.node.lineno,
+                              '%d paths through the tail of encode remain feasible for this mode; the result is not determined'
+                              % len(feasible))
+                continue
+            p, events, _ = feasible[0]
+            ret = [e for e in events if e.kind == 'return']
+            t = ret[-1].term if ret else None
+            if t is not None and is_call(t, 'builtins.tuple') and len(t[2]) == 1 and t[2][0][0] == 'list':
+                t = ('tuple',) + t[2][0][1:]
+            if t is None:
+                run.undecided('R-VTUSE', enc, role, enc.node.lineno, 'no return on the path')
+                continue
+            n += 1
+            comps = list(t[1:]) if t[0] == 'tuple' else [t]
+            strand = comps[0]
+            checks = [c for c in comps[1:] if call_name(c) and call_name(c).endswith('.set_vt')]
+            line = ret[-1].node.lineno
+            if vt:
+                ok = len(checks) == 1 and call_arg(checks[0], 0, 'dna_sequence') == strand and \
+                    call_arg(checks[0], 1, 'vt_length') == ('v', 'vt_length', 'P') and comps.index(checks[0]) == 1
+                run.check(ok, 'R-VTUSE', enc, role + ':check-over-strand', line, 'check = set_vt(returned strand, vt_length)',
+                          'encode returns %s for vt_length > 0: the second item must be set_vt(returned strand, vt_length)'
+                          % show(t)[:100], inputs='every message encoded with vt_length > 0')
+            else:
+                run.check(not checks and len(comps) == (2 if np_ else 1), 'R-VTUSE', enc, role + ':no-check', line,
+                          'no check is returned for vt_length = 0',
+                          'encode returns %s for vt_length = 0' % show(t)[:100], inputs='vt_length = 0')
+    return n
+
+
 def r_vtuse(ctx):
     run = ctx.run
     run.rule('R-VTUSE', "encode computes the check over exactly the returned strand with the vt_length parameter, after "
@@ -1203,7 +1264,14 @@ def r_vtuse(ctx):
     dec = ctx.p.func('dsw.spiderweb.decode')
     # ---- encode: every returned check is set_vt(returned strand, vt_length)
     n = 0
+    unclassified = False
     for nd in enc.stmts(ast.Return):
+        if not any(feval(atom, lambda x: 1 if x == ('v', 'vt_length', 'P') else UNKNOWN) is not UNKNOWN
+                   for atom, pol in ctx.conds(enc, nd)):
+            unclassified = True
+    if unclassified:
+        n = _vtuse_by_tail_paths(ctx, enc)
+    for nd in ([] if unclassified else enc.stmts(ast.Return)):
         t = enc.term(nd.stmt.value, nd)
         vt_on = None
         for atom, pol in ctx.conds(enc, nd):
